@@ -458,3 +458,150 @@ pub fn run_trans(cx: &mut Ctx, s: &Schedule, case: &Value) -> bool {
     cx.ops_done = done;
     cx.steps >= 3 && model.len() >= 2
 }
+
+#[derive(Clone)]
+struct XState {
+    t: Transition,
+    model: Model,
+    outside: Vec<VehicleIdx>,
+}
+
+#[derive(Clone, Debug)]
+enum XOp {
+    Move(VehicleIdx, usize),
+    Remove(VehicleIdx),
+    AddEnd(VehicleIdx, usize),
+    AddOwn(VehicleIdx),
+    ThreeOpt(usize, usize, usize, usize),
+}
+
+fn x_ops(st: &XState) -> Vec<XOp> {
+    let mut ops = vec![];
+    let members: Vec<VehicleIdx> = st.model.iter().flatten().copied().collect();
+    for &v in &members {
+        for c in 0..st.model.len() {
+            ops.push(XOp::Move(v, c));
+        }
+        ops.push(XOp::Remove(v));
+    }
+    for &v in &st.outside {
+        for c in 0..st.model.len() {
+            ops.push(XOp::AddEnd(v, c));
+        }
+        ops.push(XOp::AddOwn(v));
+    }
+    for (c, cyc) in st.model.iter().enumerate() {
+        let n = cyc.len();
+        if n >= 3 {
+            for i in 0..n - 2 {
+                for j in i + 1..n - 1 {
+                    for k in j + 1..n {
+                        ops.push(XOp::ThreeOpt(c, i, j, k));
+                    }
+                }
+            }
+        }
+    }
+    ops
+}
+
+/// C15, small bound exhaustively: ALL sequences of up to `depth` rotation-cycle operations
+/// (move / remove / add at the end / add to own cycle / 3-opt with every argument) on the first
+/// <= 4 vehicles of the largest type, every intermediate transition checked. Returns #states.
+pub fn run_trans_exhaust(cx: &mut Ctx, s: &Schedule, depth: usize) -> u64 {
+    let nw = cx.ad.nw.clone();
+    let tours = s.get_tours().clone();
+    let vt = match cx.ad.ref_to_type.iter().copied().max_by_key(|vt| s.vehicles_iter(*vt).count()) {
+        Some(vt) => vt,
+        None => return 0,
+    };
+    let all: Vec<VehicleIdx> = s.vehicles_iter(vt).take(4).collect();
+    if all.len() < 2 {
+        return 0;
+    }
+    let inside = &all[..all.len() - 1];
+    let t0 = Transition::new_fast(inside, &tours, &nw);
+    let st0 = XState { model: cycles_of(&t0), t: t0, outside: vec![all[all.len() - 1]] };
+    check_transition(cx, "create", &st0.t, &st0.model, true, vt, &tours);
+    let empty: ImHashMap<VehicleIdx, &Tour> = ImHashMap::new();
+    let mut states = 1u64;
+    let mut frontier = vec![(st0, String::new())];
+    for _level in 0..depth {
+        let mut next = vec![];
+        for (st, trace) in &frontier {
+            for op in x_ops(st) {
+                let mut n = st.clone();
+                let (kind, r): (&str, Result<Transition, String>) = match &op {
+                    XOp::Move(v, c) => ("move", guarded(|| st.t.move_vehicle(*v, *c, &tours, &nw))),
+                    XOp::Remove(v) => ("remove", guarded(|| st.t.remove_vehicle(*v, &empty, &tours, &nw))),
+                    XOp::AddEnd(v, c) => ("add_end", guarded(|| st.t.add_vehicle_at_the_end(*v, *c, &empty, &tours, &nw))),
+                    XOp::AddOwn(v) => ("add_own", guarded(|| st.t.add_vehicle_to_own_cycle(*v, tours.get(v).unwrap(), &nw))),
+                    XOp::ThreeOpt(c, i, j, k) => ("three_opt", guarded(|| {
+                        let nc = st.t.get_cycle(*c).three_opt(*i, *j, *k, &tours, &nw);
+                        st.t.replace_cycle(*c, nc)
+                    })),
+                };
+                let tr = format!("{}{:?};", trace, op);
+                let t2 = match r {
+                    Ok(t2) => t2,
+                    Err(p) => {
+                        cx.v("C15", &format!("C15.panic_in_{}:{}", kind, panic_signature(&p)), format!("exhaustive sequence {} panicked: {}", tr, p));
+                        return states;
+                    }
+                };
+                let mut exact = true;
+                match &op {
+                    XOp::Move(v, c) => {
+                        for cy in n.model.iter_mut() {
+                            cy.retain(|x| x != v);
+                        }
+                        n.model[*c].push(*v);
+                    }
+                    XOp::Remove(v) => {
+                        for cy in n.model.iter_mut() {
+                            cy.retain(|x| x != v);
+                        }
+                        n.outside.push(*v);
+                    }
+                    XOp::AddEnd(v, c) => {
+                        n.model[*c].push(*v);
+                        n.outside.retain(|x| x != v);
+                    }
+                    XOp::AddOwn(v) => {
+                        exact = false;
+                        let got = cycles_of(&t2);
+                        let pos = got.iter().position(|cy| cy.contains(v));
+                        let fine = match pos {
+                            Some(p) if got[p] == vec![*v] => {
+                                if p < n.model.len() { n.model[p].is_empty() } else { p == n.model.len() && got.len() == n.model.len() + 1 }
+                            }
+                            _ => false,
+                        };
+                        if !fine {
+                            cx.v("C15", "C15.add_own_cycle_overwrites", format!("exhaustive sequence {}: cycles before {:?}, after {:?}", tr, n.model, got));
+                            return states;
+                        }
+                        let p = pos.unwrap();
+                        if p < n.model.len() { n.model[p] = vec![*v]; } else { n.model.push(vec![*v]); }
+                        n.outside.retain(|x| x != v);
+                    }
+                    XOp::ThreeOpt(c, i, j, k) => {
+                        n.model[*c] = three_opt_model(&n.model[*c], *i, *j, *k);
+                    }
+                }
+                n.t = t2;
+                states += 1;
+                let before = cx.out.len();
+                check_transition(cx, kind, &n.t, &n.model, exact, vt, &tours);
+                if cx.out.len() > before {
+                    let last = cx.out.len() - 1;
+                    cx.out[last].msg = format!("exhaustive sequence {}: {}", tr, cx.out[last].msg);
+                    return states;
+                }
+                next.push((n, tr));
+            }
+        }
+        frontier = next;
+    }
+    states
+}
